@@ -1,12 +1,12 @@
 #!/bin/bash
 # Run every check (quick tier, no evidence written) against each seeded change:
-# git -C /repo apply <patch>; chfcheck; git -C /repo checkout -- .
+# git -C /repo apply <patch>; chfcheck; git -C /repo checkout -- . ; git -C /repo clean -fdq
 # Output: seeded/MATRIX.txt  (one line per seed: property -> rules that fired)
 set -u
 here=$(cd "$(dirname "$0")/.." && pwd)
 cd "$here"
 [ -z "$(git -C /repo status --porcelain)" ] || { echo "/repo not clean"; exit 2; }
-trap 'git -C /repo checkout -- .' EXIT
+trap 'git -C /repo checkout -- . ; git -C /repo clean -fdq' EXIT
 out=seeded/MATRIX.txt
 : > $out
 for d in seeded/C*/; do
@@ -14,7 +14,7 @@ for d in seeded/C*/; do
   git -C /repo apply "$here/$d/patch.diff" || { echo "$id: patch does not apply" >> $out; continue; }
   res=$(bin/chfcheck -property all -tier quick -evidence-dir none 2>&1)
   code=$?
-  git -C /repo checkout -- .
+  git -C /repo checkout -- . ; git -C /repo clean -fdq
   rules=$(echo "$res" | grep '^  violation' | grep -v '|vacuity' | sed 's/^  violation \(C[0-9]*\.[A-Z0-9a-z]*\)|.*/\1/' | sort | uniq -c | awk '{printf "%s(x%s) ", $2, $1}')
   props=$(echo "$res" | grep '^VIOLATION' | sed 's/VIOLATION property=\(C[0-9]*\).*/\1/' | tr '\n' ' ')
   broken=$(echo "$res" | grep -c 'CHECKER-BROKEN')
